@@ -49,7 +49,7 @@ def H(name, ta, tb, scen, tc=None, hashk=0, rounds=1, unroll=1, depth=1, grow=Fa
     if not grow: uo.update(noinline=['14enable_segmentEmb'], allow_atomic=[ENABLE_SEGMENT])
     h = dict(name=name, unit='chm', harness='h_chm.c', defines=defs, scenarios=[finish(x, kinds) for x in scen], unit_override=uo,
              cbmc=['--unwind', '14', '--unwindset', UNWINDSET, '--object-bits', '11'], timeout=timeout, desc=desc,
-             native_cflags=['-fno-sanitize=null'],   # replay build: thread-mode code forms &p->field from a not-yet-loaded (null) static temporary without accessing it
+             mem_gb=8, native_cflags=['-fno-sanitize=null'],   # replay build: thread-mode code forms &p->field from a not-yet-loaded (null) static temporary without accessing it
 
              bounds={'threads': len(kinds), 'ops_per_thread': max(len(KINDS[k]) for k in kinds), 'free_rounds': rounds, 'forced_rounds': 2, 'loop_unroll': unroll,
                      'rehash_recursion_depth': depth, 'hash': ['identity', 'constant', 'low-bits-collide'][hashk],
@@ -62,33 +62,33 @@ def H(name, ta, tb, scen, tc=None, hashk=0, rounds=1, unroll=1, depth=1, grow=Fa
         out += H(name + '_' + sfx, ta, tb, scen, **kw2)
     return out
 R2 = {'r2': dict(rounds=2)}                              # 2 free rounds (every schedule with <= 3 context switches before the forced rounds)
-R2U2 = {'r2': dict(rounds=2), 'u2': dict(unroll=2)}      # + a variant with every loop unrolled twice (second chain node / second spin iteration inside one slice)
+R2U2 = {'r2': dict(rounds=2), 'u2': dict(unroll=2, mem_gb=10)}      # + a variant with every loop unrolled twice (second chain node / second spin iteration inside one slice)
 HARNESSES = sum([
   [dict(name='seg_contract', unit='seg', harness='h_seg.c', scenarios=[{'GROW2': 0}], scenarios_thorough=[{'GROW2': 0}, {'GROW2': 1}], cbmc=['--unwind', '300', '--object-bits', '10'], timeout=600,
        desc='real get_bucket/enable_segment/init_buckets: for every bucket number <= mask (symbolic) the bucket is the right slot of the right block, constructed unlocked with the rehash flag (contracts used by the sparse bucket model of the thread harnesses)',
        bounds={'bucket number': 'all 0..255 (GROW2: 0..511)', 'segments': 'embedded + first block (+ segment 8)'})],
   H('find_era', 'find', 'era', [S([I(2), C(2)], [2], [2])], thorough=R2U2, desc='find(const_accessor,k) || erase(k): accessor holder vs erase of the same element'),
-  H('era_era', 'era', 'era', [S([I(2), C(2)], [2], [2])], thorough=R2U2, desc='erase(k) || erase(k): exactly one true, node freed once'),
-  H('ins_ins', 'ins', 'ins', [S([I(3), C(2)], [2], [2], KX0=3)],
-    thorough=R2, desc='insert(accessor,k) || insert(accessor,k), bucket of k already rehashed: both start as bucket readers, both upgrade; exactly one true, the loser gets the winner\'s element'),
-  H('insn_insn', 'insn', 'insn', [S([I(3)], [2], [2], KX0=3)],
-    thorough=R2, desc='insert(k) || insert(k), bucket of k still to be rehashed from its parent: contention on the try-acquired writer lock of the lazy rehash; exactly one true'),
+  H('era_era', 'era', 'era', [S([I(2), C(2)], [2], [2])], thorough=R2, desc='erase(k) || erase(k): exactly one true, node freed once'),
+  H('insn_insn', 'insn', 'insn', [S([I(3)], [2], [2], KX0=3), S([I(3), C(2)], [2], [2], KX0=3)],
+    thorough=R2, desc='insert(k) || insert(k): exactly one true. Scenario 1: bucket of k still to be rehashed from its parent (contention on the try-acquired writer lock of the lazy rehash); scenario 2: bucket already rehashed (both start as bucket readers, both upgrade, the loser must re-search)'),
   H('split', 'insn', 'find', [S([I(4)], [2], [4])],
     thorough=R2, desc='insert(k) rehashing bucket 2 from parent bucket 0 || find(k2) rehashing bucket 4 from the same parent, k2=4 lives in the parent: two lazy splits of one chain'),
   H('eacc_era', 'eacc', 'era', [S([I(2), C(2)], [2], [2])],
     thorough=R2, desc='find(accessor,k) + erase(accessor) || erase(k): exactly one of the two erases returns true, the write accessor stays valid until erase(accessor) releases it'),
   H('findw_ins', 'findw', 'insr', [S([I(3), C(2)], [2], [2], KX0=3)],
-    thorough=R2, desc='find(accessor,k) || insert(const_accessor,k): reader/writer element lock exclusion on a freshly inserted element'),
+    desc='find(accessor,k) || insert(const_accessor,k): reader/writer element lock exclusion on a freshly inserted element'),
   H('grow_race', 'insn', 'insn', [S([], [2], [3])], grow=True,
     thorough=R2, desc='insert(k) || insert(k2) on the EMPTY map: both cross the load-factor threshold, exactly one wins the segment CAS and grows 2 -> 256 buckets; enable_segment interleaved store by store'),
   H('grow_maskrace', 'insn_cnt', 'insn', [S([], [2, 2], [2])], grow=True, timeout=1800, thorough=R2,
     desc='insert(k); count(k) [grows the table, then rehashes k out of bucket 0]  ||  insert(k) that read the old mask: check_mask_race must restart it; exactly one insert true, k linked once'),
   H('chain_const', 'era', 'insn', [S([I(7), C(7)], [7], [5])], hashk=1,
-    thorough=R2U2, desc='constant hash: erase(k) || insert(k2) in the same chain of the same bucket'),
+    thorough=R2, desc='constant hash: erase(k) || insert(k2) in the same chain of the same bucket'),
   H('chain_low', 'find', 'era', [S([I(6), C(6), I(5)], [6], [5], KX0=6)], hashk=2,
     thorough=R2U2, desc='hashes collide in the low 8 bits: find(k) walking the 2-node chain || erase(k2) unlinking the head of that chain'),
   # ---- thorough only
-  H('find_maskrace', 'insn_find', 'insn_find', [S([], [4, 2], [2, 2])], grow=True, rounds=2, tiers=['thorough'], timeout=5400,
+  H('ins_ins', 'ins', 'ins', [S([I(3), C(2)], [2], [2], KX0=3)], tiers=['thorough'], timeout=3600,
+    desc='insert(accessor,k) || insert(accessor,k), bucket of k already rehashed: exactly one true, the loser gets a write accessor to the winner\'s element after the winner released it'),
+  H('find_maskrace', 'insn_find', 'insn_find', [S([], [4, 2], [2, 2])], grow=True, rounds=2, tiers=['thorough'], timeout=5400, mem_gb=10,
     desc='EMPTY map: A insert(k1) [wins the segment CAS, grows]; find(k)  ||  B insert(k); find(k): a find that read the old mask after insert(k) completed must restart (check_mask_race) when k has been rehashed out of bucket 0 meanwhile'),
   H('deep', 'insn', 'find', [S([I(4)], [6], [4])], depth=2, tiers=['thorough'], timeout=3600,
     desc='rehash recursion 2 deep: insert(6): bucket 6 <- parent 2 (unrehashed) <- grandparent 0 (holds key 4)  ||  find(4) splitting bucket 4 from bucket 0'),
